@@ -8,6 +8,9 @@
 (***************************************************************************)
 EXTENDS Naturals, Integers, Sequences, FiniteSets, TLC
 
+CONSTANT Ablate                  \* set of mechanism names switched off (always {} except when generating directed schedules)
+Ab(x) == x \in Ablate
+
 Nodes == 1..5                    \* universe of node ids (0 = none / invalid id)
 NoLimit == -1                    \* u64::MAX (NO_LIMIT) in views
 
